@@ -180,6 +180,19 @@ CHECKS["C14"] = dict(
     technique="TLA+ tokeniser spec model-checked with TLC over generated re-spellings; re-spellings replayed into lexer, parser and executor",
     design="3/C14")
 
+CHECKS["C20"] = dict(
+    text="spec/props/C20.tla builds templates from pieces <<bytes, node kind>> (112 constructs, white-space slots filled with blank, "
+         "LF, CRLF+blank, LFLF; newlines in text, strings, comments, multi-line tags) and defines every expected position directly "
+         "from the source (line = 1 + LF count before the offset, column = bytes since the last LF). TLC checks on spec/Lexer.tla that "
+         "the tokeniser's incremental bookkeeping yields exactly these positions (AnchorsAreTokenPositions, PosExact) and prints "
+         "vectors for four families: node positions, truncation at every byte offset (error iff inside a delimiter pair or an open "
+         "body), injected errors located at the offending token, errors in named templates; replay compares Node.Start() of the "
+         "listed node kinds, error presence, error Line/Offset and Name().",
+    note="Trusted: the piece grammar and OpenAt (what counts as inside a delimiter pair/open body) in C20.tla; the AST walker. String "
+         "literals may report their quote or first content byte; for truncations only error presence is compared.",
+    technique="TLA+ position semantics + tokeniser spec model-checked with TLC; generated templates, truncations and injections replayed into Env.Parse",
+    design="3/C20")
+
 NOT_YET = {}
 
 props = [json.loads(l)["id"] for l in open(os.path.join(VERIF, "properties.jsonl"))]
